@@ -15,7 +15,7 @@
 (*         division leaves 1 + |code| / 2^20 units of slack)                 *)
 (* TLC prints one verdict per vector (C04 numeric clause, C05, C15).        *)
 (***************************************************************************)
-EXTENDS QuantMath, IOUtils
+EXTENDS QuantMath, BigNat, IOUtils
 
 Vecs == JsonDeserialize(IOEnv.VEC_FILE)
 VARIABLE vi
@@ -46,18 +46,26 @@ DecOK ==
   IN [id |-> V.id, kind |-> "dec", lenok |-> lenok, elems |-> \A e \in 1..n : elemok(e),
       firstbad |-> IF \A e \in 1..n : elemok(e) THEN 0 ELSE CHOOSE e \in 1..n : ~elemok(e)]
 
+\* ---- bias codes.  q = b / (s_in * s_w) does not fit TLC's 32-bit rationals in general (int64 codes, 16-bit input scales):
+\* the comparison is made on big naturals (BigNat.tla).  With N = |b_num| * sin_den * sw_den and D = b_den * sin_num * sw_num
+\* (q = +-N/D) and C = |code|:  D * |code - q| = | C*D -+ N |.  The library divides in float32 (relative error of a few
+\* 2^-24), so the stored code may differ from round_half_even(q) when q is within (|code| + 1) * 2^-19 of a tie:
+\*      |code - q| <= 1/2 + (|code| + 1) / 2^19     (exactly 1/2 for |code| < 64)
 BiasOK ==
   LET n == Len(V.b)
-      ok(e) == LET sc == RMul(Rat(V.sin), Rat(V.sw[V.ch[e]]))
-                   v == RDiv(Rat(V.b[e]), sc)
-                   q == RRint(v)
-                   \* the library divides in float32 (relative error of a few 2^-24): above 2^20 that is a few units in the last
-                   \* place; below, the integer part is exact but a quotient whose fractional part is within |q| * 2^-19 of 1/2
-                   \* may fall on either side of the tie (v = f + d/(2*den) away from it, d = |2*frac*den - den|)
-                   d == Abs(2 * (v[1] - RFloor(v) * v[2]) - v[2])
-                   nearTie == Abs(q) >= 64 /\ d * (524288 \div (Abs(q) + 1)) <= v[2]
-                   tol == IF Abs(q) < 1048576 THEN (IF IsTie(v) \/ nearTie THEN 1 ELSE 0) ELSE 1 + Abs(q) \div 1048576
-               IN Abs(V.codes[e] - q) <= tol \/ V.sat[e]
+      ok(e) == LET bn == V.b[e][1]  bd == V.b[e][2]
+                   sn == V.sin[1]  sd == V.sin[2]
+                   wn == V.sw[V.ch[e]][1]  wd == V.sw[V.ch[e]][2]
+                   N == BMulInt(BMulInt(BFromInt(Abs(bn)), sd), wd)
+                   D == BMulInt(BMulInt(BFromInt(bd), sn), wn)
+                   cs == V.codes[e][1]  C == V.codes[e][2]
+                   bs == IF bn < 0 THEN -1 ELSE IF bn > 0 THEN 1 ELSE 0
+                   CD == BMul(C, D)
+                   E == IF cs * bs >= 0 THEN BAbsDiff(CD, N) ELSE BAdd(CD, N)          \* D * |code - q|
+                   small == Len(C) <= 1 /\ (C = <<>> \/ C[1] < 64)
+               IN V.sat[e]
+                  \/ (small /\ BLe(BMulInt(E, 2), D))
+                  \/ (~small /\ BLe(BMulInt(E, 524288), BMul(D, BAdd(C, BFromInt(262145)))))
   IN [id |-> V.id, kind |-> "bias", elems |-> \A e \in 1..n : ok(e),
       firstbad |-> IF \A e \in 1..n : ok(e) THEN 0 ELSE CHOOSE e \in 1..n : ~ok(e)]
 
